@@ -14,13 +14,14 @@ DEFAULT_WEIGHTS = {
     "getall": 5, "addtd": 6, "current": 3, "parent": 1, "spawn": 2, "state": 3, "inject": 0, "decorate": 0,
 }
 FORMS_PLAIN = ["plain", "str"]
-FORMS_OPT = ["optional", "pep604", "str604", "union"]
+FORMS_OPT = ["optional", "pep604", "str604", "union", "optstr", "unionstr", "stropt", "str604b"]
 
 
 class KGen:
     def __init__(self, rng: random.Random, weights: dict[str, float] | None = None, *,
                  malformed: float = 0.06, wrong_state: float = 0.08, max_ctx: int = 8, max_tasks: int = 3,
-                 td_depth: int = 2, gated: float = 0.35, exc_end: float = 0.4, many_callbacks: bool = False) -> None:
+                 td_depth: int = 2, gated: float = 0.35, exc_end: float = 0.4, many_callbacks: bool = False,
+                 p_cancel: float = 0.0) -> None:
         self.rng = rng
         self.w = dict(DEFAULT_WEIGHTS)
         if weights:
@@ -32,6 +33,7 @@ class KGen:
         self.td_depth = td_depth
         self.gated = gated
         self.exc_end = exc_end
+        self.p_cancel = p_cancel
         self.many_callbacks = many_callbacks
         self.ctxs: dict[int, dict[str, Any]] = {}
         self.stacks: dict[int, list[int]] = {0: []}      # per task: entered contexts, innermost last
@@ -219,8 +221,11 @@ class KGen:
             c = self.pick_ctx(("open",))
             if c is None:
                 return None
-            return {"op": "addtd", "t": t, "c": c, "cb": self.cb(), "callable": rng.random() > self.malformed,
-                    "via": self.via(t, c)}
+            op = {"op": "addtd", "t": t, "c": c, "cb": self.cb(), "callable": rng.random() > self.malformed,
+                  "via": self.via(t, c)}
+            if op["via"] == "shortcut" and op["callable"] and op["cb"]["pass"] and op["cb"]["async"] and rng.random() < 0.7:
+                op["via"] = "ctxtd"          # registered through @context_teardown (needs the current context)
+            return op
         if kind == "current":
             return {"op": "current", "t": t}
         if kind == "parent":
@@ -301,6 +306,8 @@ class KGen:
         x["state"] = "closed"
         self.cur[t] = x.get("token")
         end = self.exc() if rng.random() < self.exc_end else {"k": "ret"}
+        if rng.random() < self.p_cancel:
+            end = {"k": "cancelled"}        # the block is cancelled (cancel scope around it)
         return {"op": "exit", "t": t, "c": c, "end": end}
 
     def generate(self, n: int) -> list[dict[str, Any]]:
@@ -373,7 +380,7 @@ def valid_ops(ops: list[dict[str, Any]]) -> bool:
             continue
         if c not in ctxs:
             return False
-        if op.get("via") == "shortcut" and cur[t] != c:
+        if op.get("via") in ("shortcut", "ctxtd") and cur[t] != c:
             return False
         if k == "enter":
             if ctxs[c]["state"] == "inactive":
